@@ -8,7 +8,8 @@ from collections import Counter, defaultdict
 from pathlib import Path
 
 ROOT = Path(__file__).resolve().parent.parent
-KNOWN = ROOT / "known_findings.json"
+import os
+KNOWN = Path(os.environ.get("PVM_KNOWN_FINDINGS", ROOT / "known_findings.json"))
 
 
 def load_known(prop: str):
